@@ -356,6 +356,14 @@ def _seq_method(f, a, k):
     name = f.__name__
     if name == 'join':
         items = list(a[0])
+        if any(hasattr(x, 'slen') for x in items):
+            from .absstream import AbsParts
+            if len(recv):
+                raise Unmodelled('join of abstract bytes with a non-empty separator')
+            out = AbsParts([])
+            for x in items:
+                out = out + x
+            return True, out
         if any(isinstance(x, SSeq) for x in items):
             return True, lift(recv).join(items)
         return True, recv.join(items)
@@ -685,6 +693,86 @@ def h_mod(l, r):
     return l % r
 
 
+def _fmt_piece(v, conv, spec):
+    """one replacement field of an f-string / str.format with value v: returns a tuple of code points, or None
+    when the text is not modelled (the whole result then becomes an opaque message)"""
+    if not is_sym(v):
+        if conv == 's':
+            v = str(v)
+        elif conv == 'r':
+            v = repr(v)
+        elif conv == 'a':
+            v = ascii(v)
+        return tuple(map(ord, format(v, spec)))
+    if isinstance(v, SSeq) and v.kind is str and conv in (None, 's') and spec == '':
+        return v.el
+    if isinstance(v, SInt) and conv in (None, 's') and spec in ('', 'd'):
+        if _wide_range(v):
+            Ctx.cur.flag('opaque-format')
+            return None
+        return tuple(map(ord, str(v.concretize())))
+    Ctx.cur.flag('opaque-format')
+    return None
+
+
+def h_fstr(parts):
+    """f-string: parts are str literals or (value, conversion, format_spec) triples"""
+    if not any(type(p) is tuple and (is_sym(p[0]) or is_sym(p[2])) for p in parts):
+        out = []
+        for p in parts:
+            if type(p) is tuple:
+                v, conv, spec = p
+                if conv == 's':
+                    v = str(v)
+                elif conv == 'r':
+                    v = repr(v)
+                elif conv == 'a':
+                    v = ascii(v)
+                out.append(format(v, spec))
+            else:
+                out.append(p)
+        return ''.join(out)
+    el = ()
+    for p in parts:
+        if type(p) is tuple:
+            v, conv, spec = p
+            if is_sym(spec):
+                return OPAQUE_MSG
+            piece = _fmt_piece(v, conv, spec)
+            if piece is None:
+                return OPAQUE_MSG
+            el += tuple(piece)
+        else:
+            el += tuple(map(ord, p))
+    return mk_seq(el, str)
+
+
+def h_format(fmt, a, k):
+    """str.format with symbolic arguments (concrete format string, simple fields)"""
+    import string
+    if isinstance(fmt, SSeq):
+        if any(not isinstance(e, int) for e in fmt.el):
+            raise Unmodelled('str.format on a symbolic format string')
+        fmt = ''.join(map(chr, fmt.el))
+    el = ()
+    auto = 0
+    for lit, field, spec, conv in string.Formatter().parse(fmt):
+        el += tuple(map(ord, lit))
+        if field is None:
+            continue
+        if field == '':
+            field = str(auto)
+            auto += 1
+        if not _re.fullmatch(r'[A-Za-z_0-9]+', field) or '{' in (spec or ''):
+            raise Unmodelled('str.format field %r with symbolic arguments' % field)
+        v = a[int(field)] if field.isdigit() else k[field]
+        piece = _fmt_piece(v, conv, spec or '')
+        if piece is None:
+            return OPAQUE_MSG
+        el += tuple(piece)
+    return mk_seq(el, str)
+
+
 def _unm(msg):
     raise Unmodelled(msg)
 
@@ -770,6 +858,19 @@ class Instr(ast.NodeTransformer):
                                               args=[node.value, node.slice], keywords=[]), node)
         return node
 
+    def visit_JoinedStr(self, node):
+        self.generic_visit(node)
+        parts = []
+        for v in node.values:
+            if isinstance(v, ast.Constant):
+                parts.append(v)
+            else:
+                conv = {-1: None, 115: 's', 114: 'r', 97: 'a'}[v.conversion]
+                spec = v.format_spec if v.format_spec is not None else ast.Constant('')
+                parts.append(ast.Tuple(elts=[v.value, ast.Constant(conv), spec], ctx=ast.Load()))
+        return ast.copy_location(ast.Call(func=ast.Name('_sx_fstr_', ast.Load()),
+                                          args=[ast.List(parts, ast.Load())], keywords=[]), node)
+
     def visit_Call(self, node):
         self.generic_visit(node)
         if isinstance(node.func, ast.Name) and node.func.id in ('super', 'locals', 'globals', 'vars'):
@@ -823,7 +924,7 @@ class Instr(ast.NodeTransformer):
 
 HELPERS = {
     '_sx_call_': h_call, '_sx_mod_': h_mod, '_sx_in_': h_in, '_sx_dict_': h_dict,
-    '_sx_enter_': h_enter, '_sx_dict_pairs_': h_dict_pairs, '_sx_getitem_': h_getitem,
+    '_sx_enter_': h_enter, '_sx_dict_pairs_': h_dict_pairs, '_sx_getitem_': h_getitem, '_sx_fstr_': h_fstr,
 }
 
 
